@@ -54,6 +54,7 @@ CONF = {
         mc=[('base', ['Submit', 'RemoveApp', 'SetPrio', 'Down', 'Up', 'RemoveServer', 'AddServer', 'Move'], None),
             ('affinity', ['Submit', 'SetPrio', 'RemoveServer', 'Down'], None)],
         gen=['base', 'affinity', 'lease', 'topology', 'queue'], weights=['pressure', 'pressure', 'lease'], randscn=2,
+        focus=[('lease', 'gen_frozen_renew'), ('lease', 'gen_frozen_renew')],
         rule='a history counts when a cycle displaces an instance that was running on an up server and was entitled to stay (so the justification clause is exercised); distinct = distinct environment histories'),
     'C08': dict(
         inv=['InvC08', 'InvViews'],
